@@ -23,6 +23,7 @@ FUNCS = ['cover.minimize', 'cover._traverse', 'cover._branch', 'cover._lower_bou
 DECLS = {
     'b3': dict(x=(0, 1), y=(0, 1), z=(0, 1)),
     'b4': dict(x=(0, 1), y=(0, 1), z=(0, 1), w=(0, 1)),
+    'b5': dict(x=(0, 1), y=(0, 1), z=(0, 1), w=(0, 1), v=(0, 1)),
     'g44': dict(x=(0, 3), y=(0, 3)),
     'g333': dict(x=(0, 2), y=(0, 2), z=(0, 2)),
     's': dict(x=(-2, 1), y=(0, 3)),
@@ -125,9 +126,17 @@ def check_instances(instances):
         k = len(boxes)
         sample.update(cover_size=k, boxes=boxes[:6], minimize_s=round(t_real, 3))
         t2 = time.time()
-        r, smaller = coverlib.smaller_cover_exists(k - 1, names, ranges, pts, F, CARE)
+        if k - 1 >= 7:
+            r, smaller = 'skipped', None      # large covers: the set-cover formulation below decides
+            q = {}
+        else:
+            r, smaller = coverlib.smaller_cover_exists(k - 1, names, ranges, pts, F, CARE, timeout_ms=20000)
+            q = {r: 1}
+        if r not in ('sat', 'unsat'):
+            # same question as a set cover over the explicitly enumerated maximal boxes
+            r, smaller = coverlib.smaller_cover_exists_setcover(k - 1, names, ranges, pts, F, CARE)
+            q[r + '(set-cover formulation)'] = 1
         dt = time.time() - t2
-        q = {r: 1}
         if r == 'sat':
             # replay: the witness is a concrete cover; verify it point by point
             wp = coverlib.check_cover(smaller, names, ranges, pts, F, CARE)
@@ -193,6 +202,12 @@ def instances_for(tier, seed):
         insts += [instance('mask', 'b4', (rnd.getrandbits(16) or 1, None)) for _ in range(400)]
     else:
         insts += [instance('mask', 'b4', (m, None)) for m in range(1, 65535)]
+    # five two-valued variables: the smallest size with cyclic cores whose branching prunes
+    n5 = 4000 if tier == 'quick' else 40000
+    for _ in range(n5):
+        dens = rnd.choice([0.55, 0.6, 0.65, 0.7])
+        m = sum(1 << i for i in range(32) if rnd.random() < dens)
+        insts.append(instance('mask', 'b5', (m or 1, None)))
     nb = 40 if tier == 'quick' else 600
     for d in ('g44', 'g333', 's', 'n', 'm', 'g88'):
         insts += [instance('boxes', d, seed * 1000 + i) for i in range(nb)]
